@@ -283,6 +283,8 @@ func TestC13(t *testing.T) {
 type oneResult struct {
 	ranges   promapi.MetricTimeRanges
 	err      error
+	firstErr error // error of the attempt that met the injected fault (the result above is then the retry's)
+	retried  bool
 	firstReq int64 // ms, smallest slice start as the server parsed it
 	lastEnd  int64 // ms, largest slice end as the server parsed it
 	step     int64
@@ -347,6 +349,20 @@ func runOnce(t *testing.T, sc *Scenario, sched detsim.SchedConfig, record bool, 
 			res.err = err
 			if rr != nil {
 				res.ranges = rr.Series.Ranges
+			}
+			if sc.Fault != nil && err != nil {
+				// the fault is gone (it hit one request ordinal): asking again must give the whole
+				// answer - nothing half-done may have been kept from the failed attempt
+				res.firstErr = err
+				res.retried = true
+				rr, err = fg.RangeQuery(context.Background(), "m", absRange{
+					start: endAbs.Add(-time.Duration(sc.LookbackS) * time.Second), end: endAbs, step: time.Duration(stepS) * time.Second,
+				})
+				res.err = err
+				res.ranges = nil
+				if rr != nil {
+					res.ranges = rr.Series.Ranges
+				}
 			}
 		}()
 		select {
@@ -436,10 +452,12 @@ func run(t *testing.T, sc Scenario, record bool) *detsim.Outcome {
 			if fired > 0 {
 				// narrow relaxation: one slice failed, so the query may fail - it may not invent a hole
 				out.Probes["slice_fault_fired"]++
-				if r.err == nil {
+				if !r.retried {
 					out.AddViolation("partial-result-without-error", fmt.Sprintf("%s: slice request #%d failed (%s) and RangeQuery still returned a result", who, sc.Fault.Ord, sc.Fault.Mode))
+					continue
 				}
-				continue
+				out.Probes["retried_after_fault"]++
+				who += " [second attempt after the injected " + sc.Fault.Mode + "]"
 			}
 		}
 		if r.err != nil {
